@@ -14,8 +14,8 @@ import (
 	"net/http/httptest"
 	"os"
 	"path/filepath"
-	"sort"
 	"regexp"
+	"sort"
 	"strings"
 	"sync"
 	"testing"
@@ -226,7 +226,7 @@ type c11Chain struct {
 	method string // for KRegister
 	coq    string
 	wrap   func(h http.HandlerFunc) http.Handler // nil: through the real httpRegister
-	mux    http.Handler                           // round 4: the route is already registered (real httpRegister, wd.handler) on this mux
+	mux    http.Handler                          // round 4: the route is already registered (real httpRegister, wd.handler) on this mux
 }
 
 // c11Tokens: the cookie values of the shapes (the keys of Auth.sessions are
@@ -539,7 +539,24 @@ func c11GateClasses(c c11Chain, q c11Req, ran, locked bool, status int) (cl []st
 }
 
 // c11Probe sends one request through chain c and emits the case.
-func (wd *c11World) probe(out *vfOut, c c11Chain, e c11Env, q c11Req) {
+func (wd *c11World) probe(out *vfOut, c c11Chain, e c11Env, q c11Req) { wd.probeAt(out, c, nil, e, q) }
+
+// probeAt: round 5 (J).  With ew != nil the chain is BUILT while the world is
+// *ew (the wrapper constructors are called then: c.wrap, or the real
+// httpRegister on a fresh mux) and the request is served after the world has
+// become e.  The monitors judge by e, the world of the request.
+func (wd *c11World) probeAt(out *vfOut, c c11Chain, ew *c11Env, e c11Env, q c11Req) {
+	var built http.Handler
+	if ew != nil && c.mux == nil {
+		wd.setEnv(*ew)
+		if c.wrap != nil {
+			built = c.wrap(wd.handler)
+		} else {
+			globalContext.mux = http.NewServeMux()
+			httpRegister(c.method, q.path, wd.handler)
+			built = globalContext.mux
+		}
+	}
 	wd.setEnv(e)
 	a := globalContext.auth
 	c12AlignSecond()
@@ -554,6 +571,8 @@ func (wd *c11World) probe(out *vfOut, c c11Chain, e c11Env, q c11Req) {
 	h := wd.handler
 	var hd http.Handler
 	switch {
+	case built != nil:
+		hd = built
 	case c.mux != nil:
 		hd = c.mux
 	case c.wrap != nil:
@@ -594,6 +613,12 @@ func (wd *c11World) probe(out *vfOut, c c11Chain, e c11Env, q c11Req) {
 		} else if !e.firstRun && e.https == 0 && !(status == 403 || (status == 302 && loc == 1)) {
 			monOK, msg, key = false, fmt.Sprintf("unauthenticated request answered %d (Location class %d), want 403 or a redirect to the login page", status, loc), "c11-refusal-shape"
 		}
+	}
+	// round 5: the routes of the wizard (everything behind preInstall) are
+	// not among the routes that may be reached without credentials once the
+	// installation is set up
+	if strings.HasPrefix(c.name, "install") && !e.firstRun && ran {
+		monOK, msg, key = false, fmt.Sprintf("handler behind %s (preInstall) ran although firstRun is false at the time of the request %+v (env %+v)", c.name, q, e), "c11-install-open-after-setup"
 	}
 	// round 4: every chain with a method gate (httpRegister, login, install)
 	if c.method != "" && ran {
@@ -640,6 +665,27 @@ func (wd *c11World) probe(out *vfOut, c c11Chain, e c11Env, q c11Req) {
 	}
 	if e.https > 0 {
 		classes = append(classes, "https")
+	}
+	if ew != nil {
+		// built in one world, requested in another
+		if !monOK {
+			msg = fmt.Sprintf("chain built while the world was %+v, request served after it had become %+v: ", *ew, e) + msg
+		}
+		classes = append(classes, "wrap-time")
+		if ew.firstRun && !e.firstRun {
+			classes = append(classes, "wrap-first-run-then-configured")
+		}
+		if (ew.noAuth || !ew.users) && e.users && !e.noAuth {
+			classes = append(classes, "wrap-before-account")
+		}
+		ewCoq := c11EnvCoq(*ew, !ew.noAuth, now, ttl, c11Req{})
+		out.Emit(vfCase{
+			Coq:        vfApp("C11.CProbe2", ewCoq, envCoq, sessCoq, c.coq, c11CoqReq(q, e.users), obs),
+			Nontrivial: !ran, MonitorOK: monOK, MonitorMsg: msg, FindingKey: key, Classes: classes,
+			Desc: map[string]any{"chain": c.name, "built_in": fmt.Sprintf("%+v", *ew), "env": fmt.Sprintf("%+v", e), "request": fmt.Sprintf("%+v", q),
+				"status": status, "location": rec.Header().Get("Location"), "ran": ran},
+		})
+		return
 	}
 	out.Emit(vfCase{
 		Coq:        vfApp("C11.CProbe", envCoq, sessCoq, c.coq, c11CoqReq(q, e.users), obs),
@@ -1450,8 +1496,8 @@ func c11ReloadCases(out *vfOut, wd *c11World, rnd *vfRand, chains []c11Chain) {
 			{name: "soon-alone", recs: []c11Rec{rec("\x11\x04", c12User, soon)}},
 			{name: "dead-then-live", recs: []c11Rec{rec("\x01\x05", c12User, dead), rec("\x02\x05", c12User, live)}},
 			{name: "soon-then-dead", recs: []c11Rec{rec("\x01\x06", c12User, soon), rec("\x02\x06", "second", dead)}},
-			{name: "soon-live-live", recs: []c11Rec{rec("\x01\x07", c12User, soon), rec("\x02\x07", c12User, live), rec("\x03\x07", "second", 86400 * 30)}},
-			{name: "live-live", recs: []c11Rec{rec("\x01\x08", c12User, live), rec("\x02\x08", "second", live + 1)}},
+			{name: "soon-live-live", recs: []c11Rec{rec("\x01\x07", c12User, soon), rec("\x02\x07", c12User, live), rec("\x03\x07", "second", 86400*30)}},
+			{name: "live-live", recs: []c11Rec{rec("\x01\x08", c12User, live), rec("\x02\x08", "second", live+1)}},
 			{name: "empty", recs: nil},
 		}
 	}
@@ -1675,6 +1721,37 @@ func TestVerifC11(t *testing.T) {
 
 	// --- round 4 (G): start-up with a populated sessions.db
 	c11ReloadCases(out, wd, rnd, chains)
+
+	// --- round 5 (J): every chain BUILT in one world and requested in
+	// another: the first run (no account yet), before initUsers (no Auth
+	// object), configured without accounts, configured with accounts, the
+	// first run with an account already added (a wizard whose startMods
+	// failed) x the worlds of the request.  Constructed, seed-independent.
+	{
+		built := []c11Env{{firstRun: true}, {noAuth: true}, {users: false}, normal, {users: true, firstRun: true}}
+		served := []c11Env{normal, {users: false}, {firstRun: true}, {users: true, firstRun: true}, {noAuth: true}}
+		for _, c := range chains {
+			m := c.method
+			if m == "" {
+				m = "GET"
+			}
+			for i := range built {
+				for _, e := range served {
+					for _, cred := range []c11Req{{}, {cookie: 3}, {basic: 1}} {
+						q := cred
+						q.method, q.path = m, ctl
+						if m != "GET" {
+							q.ctype, q.body = "application/json", 1
+						}
+						wd.probeAt(out, c, &built[i], e, q)
+					}
+				}
+			}
+		}
+	}
+	// --- round 5 (I, J): the life of an installation (zz_verif_C11life_test.go)
+	c11LifeCases(out, wd, rnd, c11LoadRoutes(t))
+	wd.setEnv(normal)
 
 	// --- start-up: every state of sessions.db x users configured or not x
 	// credential shapes, behind httpRegister(POST), httpRegister(GET) and the
